@@ -147,6 +147,9 @@ func checkMetricKeys(conf Config, schema base.LogSchema, orchestrationKeys []str
 		return fmt.Errorf("metricKeys: %w", err)
 	}
 	for i, key := range conf.MetricKeys {
+		if slices.Index(conf.MetricKeys[:i], key) != -1 {
+			return fmt.Errorf("metricKeys[%d]: field '%s' is listed more than once", i, key)
+		}
 		if slices.Index(orchestrationKeys, key) != -1 {
 			return fmt.Errorf("metricKeys[%d]: field '%s' cannot be listed in both .metricKeys and .orchestration/keys", i, key)
 		}
